@@ -2,7 +2,7 @@
    flow that fails exactly where state_engine.py reports an "Illegal State Machine": a transition to a state
    that does not exist (in the current States object), a state without a known Type, a non-terminal state
    without Next. *)
-From Coq Require Import List Arith Bool String Lia.
+From Coq Require Import List Arith Bool String ZArith Lia.
 Import ListNotations.
 From LSF Require Import PyStr Json.
 Open Scope string_scope.
@@ -48,12 +48,25 @@ Definition sub_count_ok (st : obj) : bool :=
   else if String.eqb t "Map" then Nat.eqb (List.length (submachines st)) 1
   else true.
 
+(* a Default that is not a string but is "truthy" for Python (true, a non-zero number, a non-empty array or object): the engine
+   takes it for the name of the next state, which cannot exist (state names are strings); null / false / 0 / [] / {} count as absent *)
+Definition bad_default (st : obj) : bool :=
+  match obj_get st "Default" with
+  | Some (JBool b) => b
+  | Some (JInt z) => negb (Z.eqb z 0)
+  | Some (JFlt n _) => negb (Z.eqb n 0)
+  | Some (JArr (_ :: _)) => true
+  | Some (JObj (_ :: _)) => true
+  | _ => false
+  end.
+
 (* one state is well formed inside machine m *)
 Definition state_ok (m : obj) (st : obj) : bool :=
   let t := type_of st in
   known_type t && sub_count_ok st &&
   forallb (has_state m) (targets st) &&
-  (terminal_type t || is_end st || String.eqb t "Choice" && negb (match targets st with [] => true | _ => false end) || negb (match next_of st with [] => true | _ => false end)).
+  (terminal_type t || is_end st || String.eqb t "Choice" && negb (match targets st with [] => true | _ => false end) || negb (match next_of st with [] => true | _ => false end)) &&
+  negb (bad_default st).
 
 (* nesting depth as fuel *)
 Fixpoint wf (d : nat) (m : obj) : bool :=
@@ -81,6 +94,7 @@ Fixpoint illegal (fuel : nat) (m : obj) (name : string) : bool :=
           let t := type_of st in
           negb (known_type t) ||
           negb (sub_count_ok st) ||
+          (String.eqb t "Choice" && bad_default st) ||
           existsb (fun b => match start_of b with Some s0 => illegal f b s0 | None => true end) (submachines st) ||
           (if terminal_type t || is_end st then false
            else match targets st with
